@@ -21,6 +21,14 @@ read and that is not listed in the translator's table stops the extractor):
                                           reads it: byteOrder, Receivers() (↦ the node names
                                           `rec.node.name` in the order of the getter: sorted by name)
   *Message                ↦ `Msg`      : name, desc, GetCANID(), sizeByte, senderNodeInt.node.name, Signals()
+  *NodeInterface (of the bus) ↦ `NodeInt` : node.name, node.desc, SentMessages() (sorted by message id)
+  *Bus                    ↦ `Bus`      : desc, NodeInterfaces() (sorted by node id)
+  EntityID                ↦ `Nat`       (an opaque identity: only its equality is observed; the comparison
+                                          of two entity ids inside a comparator is part of the abstract sort)
+  `x := make(.., 0, len(m)); for _, v := range m { x = append(x, v) }; slices.SortFunc(x, cmp)` (the values of
+  a map, sorted)          ↦ `sortEnums (mapValues m)` with `sortEnums` a PARAMETER of the generated function
+                                          (spec in the theorems: a permutation of its argument, sorted by name;
+                                          the comparator is Acme.Gen.Cmp.exporter_exporter_exportBus_1 of C15)
 
 Getters that sort a map's values (`Receivers()`, `SignalEnum.Values()`) are abstract SORTED LIST fields
 of these records (their comparators are translated and proved total in Acme.Gen.Cmp / C15).
@@ -90,6 +98,10 @@ def mapSet {κ ν : Type} [DecidableEq κ] : List (κ × ν) → κ → ν → L
   | [], k, v => [(k, v)]
   | p :: r, k, v => if p.1 = k then (k, v) :: r else p :: mapSet r k v
 
+/-- the values of a map, in SOME order (here: the order of first insertion; the generated code
+    hands them to the abstract sort at once, see `exportBus`) -/
+def mapValues {κ ν : Type} (m : List (κ × ν)) : List ν := m.map (·.2)
+
 /-! ## the model objects -/
 
 /-- `MessageByteOrder` -/
@@ -118,7 +130,8 @@ structure EnumValue where
   deriving Repr, DecidableEq, Inhabited
 
 structure SigEnum where
-  entityID : String := ""
+  /-- the entity id: an opaque identity (a random text in Go), only compared for equality -/
+  entityID : Nat := 0
   name : String := ""
   maxIndex : Int := 0
   /-- `Values()`: sorted by index -/
@@ -186,6 +199,20 @@ structure Msg where
   signals : List Sig := []
   deriving Repr, Inhabited
 
+/-- an element of `bus.NodeInterfaces()`: `node.name`, `node.desc`, `SentMessages()` (sorted by
+    message id) -/
+structure NodeInt where
+  nodeName : String
+  nodeDesc : String := ""
+  sentMessages : List Msg := []
+  deriving Repr, Inhabited
+
+/-- `*Bus`: `desc`, `NodeInterfaces()` (sorted by node id) -/
+structure Bus where
+  desc : String := ""
+  nodeInterfaces : List NodeInt := []
+  deriving Repr, Inhabited
+
 /-! ## the output -/
 
 /-- `dbc.Signal` -/
@@ -215,6 +242,11 @@ structure DbcMessage where
   signals : List DbcSignal := []
   deriving Repr, DecidableEq, Inhabited
 
+/-- `dbc.Nodes` -/
+structure DbcNodes where
+  names : List String := []
+  deriving Repr, DecidableEq, Inhabited
+
 /-- the exporter: `e.dbcFile` (the sections it appends to), `e.currDBCMsg.Signals`, `e.sigEnums` -/
 structure St where
   comments : List Acme.Dbc.Comment := []
@@ -222,7 +254,10 @@ structure St where
   extendedMuxes : List Acme.Dbc.ExtendedMux := []
   messages : List DbcMessage := []
   curSignals : List DbcSignal := []
-  sigEnums : List (String × SigEnum) := []
+  sigEnums : List (Nat × SigEnum) := []
+  valueTables : List Acme.Dbc.ValueTable := []
+  /-- `e.dbcFile.Nodes` (a pointer, nil until `exportNodeInterfaces` sets it) -/
+  nodes : Option DbcNodes := none
   deriving Repr, Inhabited
 
 end Acme.XSem
